@@ -300,7 +300,7 @@ Proof.
   intros Hs Ha Hb Hd Hf Hp Hne. simpl. unfold r_copy. rewrite Hne, Ha, Hb. simpl.
   unfold is_dir in Hd. destruct (lookup t s) as [[c|]|] eqn:L; try discriminate.
   rewrite Hf. destruct s; [congruence|].
-  match goal with |- (if ?b then _ else _) = _ => replace b with true by (symmetry; exact Hp) end. reflexivity.
+  match goal with |- (if ?b || _ then _ else _) = _ => replace b with true by (symmetry; exact Hp) end. reflexivity.
 Qed.
 
 Lemma move_into_itself_refused_l t s str d dtr :
@@ -316,4 +316,367 @@ Proof.
   unfold exec, r_move. rewrite Hne2, Ha, Hb. cbv beta iota. simpl orb. cbv iota. rewrite L. cbv zeta.
   match goal with |- (if ?b then _ else _) = _ => replace b with false by (symmetry; exact Hne) end.
   match goal with |- (if ?b then _ else _) = _ => replace b with true by (symmetry; exact Hp) end. reflexivity.
+Qed.
+
+(* ---------- frame: nothing outside the destination changes ---------- *)
+
+(* [frame t t' rs]: every path that is not at or below one of [rs] keeps its entry if it had one, and is unchanged
+   altogether unless it is an ancestor of one of [rs] (mkdir -p of the parents). *)
+Definition frame (t t' : tree) (rs : list path) : Prop :=
+  forall q, outside rs q = true ->
+    (forall e, lookup t q = Some e -> lookup t' q = Some e) /\ (towards rs q = false -> lookup t' q = lookup t q).
+
+Lemma frame_refl t rs : frame t t rs.
+Proof. intros q _. split; auto. Qed.
+
+Lemma frame_trans t t1 t2 rs : frame t t1 rs -> frame t1 t2 rs -> frame t t2 rs.
+Proof.
+  intros H1 H2 q Hq. destruct (H1 q Hq) as [A1 B1]. destruct (H2 q Hq) as [A2 B2]. split.
+  - intros e He. apply A2, A1, He.
+  - intros Ht. rewrite B2, B1; auto.
+Qed.
+
+Lemma outside_in rs q r : outside rs q = true -> In r rs -> is_prefix r q = false.
+Proof.
+  unfold outside. rewrite forallb_forall. intros H Hin. apply H in Hin. now apply negb_true_iff in Hin.
+Qed.
+
+Lemma towards_in rs q r : towards rs q = false -> In r rs -> is_prefix q r = false.
+Proof.
+  unfold towards. intros H Hin. destruct (is_prefix q r) eqn:E; auto.
+  assert (existsb (fun r => is_prefix q r) rs = true) by (apply existsb_exists; eauto). congruence.
+Qed.
+
+Lemma prefix_comparable a b x : is_prefix a x = true -> is_prefix b x = true -> is_prefix a b = true \/ is_prefix b a = true.
+Proof.
+  revert b x; induction a as [|u a IH]; intros b x Ha Hb; [now left|].
+  destruct b as [|v b]; [now right|]. destruct x as [|w x]; [discriminate|].
+  simpl in *. apply andb_true_iff in Ha as [Ha1 Ha2]. apply andb_true_iff in Hb as [Hb1 Hb2].
+  apply Z.eqb_eq in Ha1, Hb1. subst. rewrite Z.eqb_refl. simpl. eapply IH; eauto.
+Qed.
+
+Lemma lookup_root t : lookup t [] = Some D.
+Proof. reflexivity. Qed.
+
+(* mkdir -p p, p an ancestor of a root or at/below a root *)
+Lemma frame_mkdirp t p rs r :
+  In r rs -> is_prefix p r = true \/ is_prefix r p = true -> frame t (mkdirp t p) rs.
+Proof.
+  intros Hin Hr q Hq. split.
+  - intros e. apply lookup_mkdirp_some.
+  - intros Ht. apply lookup_mkdirp_other. destruct (is_prefix q p) eqn:E; auto. exfalso.
+    pose proof (outside_in _ _ _ Hq Hin) as O. pose proof (towards_in _ _ _ Ht Hin) as T.
+    destruct Hr as [Hr|Hr].
+    + rewrite (is_prefix_trans _ _ _ E Hr) in T. discriminate.
+    + destruct (prefix_comparable _ _ _ E Hr); congruence.
+Qed.
+
+(* a change confined to what lies at or below xs, each of which is at or below a root *)
+Lemma frame_under t t' xs rs :
+  (forall q, q <> [] -> (forall x, In x xs -> is_prefix x q = false) -> find_entry t' q = find_entry t q) ->
+  (forall x, In x xs -> exists r, In r rs /\ is_prefix r x = true) ->
+  frame t t' rs.
+Proof.
+  intros H Hx q Hq.
+  assert (E : lookup t' q = lookup t q).
+  { destruct q as [|a q]; [reflexivity|]. simpl. apply H; [discriminate|]. intros x Hin.
+    destruct (Hx x Hin) as [r [Hr Hp]]. pose proof (outside_in _ _ _ Hq Hr) as O.
+    destruct (is_prefix x (a :: q)) eqn:E; auto. rewrite (is_prefix_trans _ _ _ Hp E) in O. discriminate. }
+  rewrite E. split; auto.
+Qed.
+
+Lemma is_prefix_false_neq p q : is_prefix p q = false -> path_eqb p q = false.
+Proof. intros H. apply path_eqb_neq. intros ->. rewrite is_prefix_refl in H. discriminate. Qed.
+
+Lemma frame_set_file t x c rs r : In r rs -> is_prefix r x = true -> frame t (set_file t x c) rs.
+Proof.
+  intros Hin Hp. apply (frame_under _ _ [x]).
+  - intros q _ H. rewrite find_set_file, (is_prefix_false_neq x q); auto. apply H. now left.
+  - intros y [<-|[]]. eauto.
+Qed.
+
+Lemma frame_remove_sub t x rs r : In r rs -> is_prefix r x = true -> frame t (remove_sub t x) rs.
+Proof.
+  intros Hin Hp. apply (frame_under _ _ [x]).
+  - intros q _ H. rewrite find_remove_sub, H; auto. now left.
+  - intros y [<-|[]]. eauto.
+Qed.
+
+Lemma below_prefix p q : below p q = true -> is_prefix p q = true.
+Proof. unfold below. intros H. now apply andb_true_iff in H as [H _]. Qed.
+
+Lemma frame_remove_below t x rs r : In r rs -> is_prefix r x = true -> frame t (remove_below t x) rs.
+Proof.
+  intros Hin Hp. apply (frame_under _ _ [x]).
+  - intros q _ H. rewrite find_remove_below. destruct (below x q) eqn:E; auto.
+    apply below_prefix in E. rewrite H in E; [discriminate|now left].
+  - intros y [<-|[]]. eauto.
+Qed.
+
+Lemma find_put_other t x e q : path_eqb x q = false -> find_entry (put t x e) q = find_entry t q.
+Proof.
+  intros H. destruct e; simpl.
+  - now rewrite find_set_file, H.
+  - now apply find_add_dir_other.
+Qed.
+
+Lemma find_graft_other l : forall t s dst q,
+  is_prefix dst q = false ->
+  find_entry (fold_left (fun t' e => put t' (reroot s dst (fst e)) (snd e)) l t) q = find_entry t q.
+Proof.
+  induction l as [|e l IH]; intros t s dst q H; simpl; auto.
+  rewrite IH by auto. apply find_put_other. apply is_prefix_false_neq.
+  destruct (is_prefix (reroot s dst (fst e)) q) eqn:E; auto.
+  unfold reroot in E. rewrite (is_prefix_trans _ _ _ (is_prefix_app dst _) E) in H. discriminate.
+Qed.
+
+Lemma frame_graft t s dst rs r : In r rs -> is_prefix r dst = true -> frame t (graft t s dst) rs.
+Proof.
+  intros Hin Hp. apply (frame_under _ _ [dst]).
+  - intros q _ H. unfold graft. apply find_graft_other. apply H. now left.
+  - intros y [<-|[]]. eauto.
+Qed.
+
+Lemma find_map_reroot_none (l : tree) s dst q :
+  is_prefix dst q = false -> find_entry (map (fun e => (reroot s dst (fst e), snd e)) l) q = None.
+Proof.
+  intros H. induction l as [|e l IH]; simpl; auto.
+  destruct (path_eqb (reroot s dst (fst e)) q) eqn:E; auto.
+  apply path_eqb_eq in E. subst q. unfold reroot in H. rewrite is_prefix_app in H. discriminate.
+Qed.
+
+Lemma frame_rename t s dst rs r1 r2 :
+  In r1 rs -> is_prefix r1 s = true -> In r2 rs -> is_prefix r2 dst = true -> frame t (rename_sub t s dst) rs.
+Proof.
+  intros H1 P1 H2 P2. apply (frame_under _ _ [s; dst]).
+  - intros q _ H. unfold rename_sub. rewrite find_entry_app, find_remove_sub.
+    rewrite (H s) by (now left). rewrite find_map_reroot_none by (apply H; right; now left).
+    destruct (find_entry t q); auto.
+  - intros y [<-|[<-|[]]]; eauto.
+Qed.
+
+Lemma is_prefix_parent p : is_prefix (parent p) p = true.
+Proof.
+  unfold parent. induction p as [|a p IH]; auto. simpl. destruct p; [reflexivity|].
+  simpl in *. now rewrite Z.eqb_refl.
+Qed.
+
+Lemma frame_weaken_nil t t' : t' = t -> forall rs, frame t t' rs.
+Proof. intros ->. intros; apply frame_refl. Qed.
+
+Ltac inv_out H := first [discriminate H | (inversion H; subst; clear H)].
+
+(* Copy: everything it changes is at or below its destination argument d (or a freshly created ancestor of d) *)
+Lemma frame_copy t a d dtr r t' : r_copy t a (P d dtr) = Out r t' -> frame t t' [d].
+Proof.
+  unfold r_copy. destruct (parg_eqb a (P d dtr)); [intros H; inv_out H; apply frame_refl|].
+  destruct a as [|s str]; [intros H; inv_out H; apply frame_refl|].
+  destruct (arg_conflict t s str || arg_conflict t d dtr); [discriminate|].
+  destruct (lookup t s) as [[c|]|] eqn:L; [| |intros H; inv_out H; apply frame_refl].
+  - (* file *)
+    set (dst := if is_dir t d then d ++ [base s] else if exists_ t d then d else if dtr then d ++ [base s] else d).
+    set (pre := if exists_ t d then t else if dtr then mkdirp t d else mkdirp t (parent d)).
+    assert (Fpre : frame t pre [d]).
+    { unfold pre. destruct (exists_ t d); [apply frame_refl|]. destruct dtr.
+      - apply (frame_mkdirp _ _ _ d); [now left|left; apply is_prefix_refl].
+      - apply (frame_mkdirp _ _ _ d); [now left|left; apply is_prefix_parent]. }
+    assert (Pd : is_prefix d dst = true).
+    { unfold dst. destruct (is_dir t d); [apply is_prefix_app|]. destruct (exists_ t d); [apply is_prefix_refl|].
+      destruct dtr; [apply is_prefix_app|apply is_prefix_refl]. }
+    destruct (path_eqb dst s); [intros H; inv_out H; exact Fpre|].
+    destruct (is_dir pre dst); [discriminate|]. intros H; inv_out H.
+    eapply frame_trans; [exact Fpre|]. apply (frame_set_file _ _ _ _ d); [now left|exact Pd].
+  - (* directory *)
+    destruct (is_file t d); [discriminate|]. destruct s as [|n s]; [intros H; inv_out H; apply frame_refl|].
+    set (dst := if is_dir t d then d ++ [base (n :: s)] else d).
+    assert (Pd : is_prefix d dst = true) by (unfold dst; destruct (is_dir t d); [apply is_prefix_app|apply is_prefix_refl]).
+    destruct (is_prefix (n :: s) dst || is_prefix dst (n :: s)); [intros H; inv_out H; apply frame_refl|].
+    destruct (through_file t dst || graft_conflict t (n :: s) dst); [discriminate|]. intros H; inv_out H.
+    eapply frame_trans.
+    + apply (frame_mkdirp _ dst _ d); [now left|right; exact Pd].
+    + apply (frame_graft _ _ _ _ d); [now left|exact Pd].
+Qed.
+
+Lemma frame_mono t t' rs rs' : (forall r, In r rs -> In r rs') -> frame t t' rs -> frame t t' rs'.
+Proof.
+  intros Hsub H q Hq.
+  assert (O : outside rs q = true).
+  { unfold outside in *. rewrite forallb_forall in *. intros r Hr. apply Hq, Hsub, Hr. }
+  destruct (H q O) as [A B]. split; auto. intros T. apply B.
+  unfold towards in *. destruct (existsb (fun r => is_prefix q r) rs) eqn:E; auto.
+  apply existsb_exists in E as [r [Hr Hp]].
+  assert (existsb (fun r => is_prefix q r) rs' = true) by (apply existsb_exists; exists r; auto). congruence.
+Qed.
+
+Lemma frame_move t s str d dtr r t' : r_move t (P s str) (P d dtr) = Out r t' -> frame t t' [s; d].
+Proof.
+  unfold r_move. destruct (parg_eqb (P s str) (P d dtr)); [intros H; inv_out H; apply frame_refl|].
+  destruct s as [|n s]; [discriminate|].
+  destruct (arg_conflict t (n :: s) str || arg_conflict t d dtr); [discriminate|].
+  destruct (lookup t (n :: s)) as [e|] eqn:L; [|intros H; inv_out H; apply frame_refl].
+  set (dst := if is_dir t d then d ++ [base (n :: s)] else if negb (exists_ t d) && dtr then d ++ [base (n :: s)] else d).
+  assert (Pd : is_prefix d dst = true).
+  { unfold dst. destruct (is_dir t d); [apply is_prefix_app|]. destruct (negb (exists_ t d) && dtr); [apply is_prefix_app|apply is_prefix_refl]. }
+  destruct (path_eqb dst (n :: s)); [intros H; inv_out H; apply frame_refl|].
+  destruct ((match e with D => true | _ => false end) && is_prefix (n :: s) dst); [intros H; inv_out H; apply frame_refl|].
+  set (pre := mkdirp t (parent dst)).
+  assert (Fpre : frame t pre [n :: s; d]).
+  { unfold pre. apply (frame_mkdirp _ _ _ d); [right; now left|].
+    destruct (prefix_comparable _ _ _ (is_prefix_parent dst) Pd); auto. }
+  destruct (lookup pre dst) as [[c|]|] eqn:Ld; destruct e as [c'|]; try discriminate; intros H.
+  - inv_out H. eapply frame_trans; [exact Fpre|]. apply (frame_trans _ (remove_sub pre (n :: s))).
+    + apply (frame_remove_sub _ _ _ (n :: s)); [now left|apply is_prefix_refl].
+    + apply (frame_set_file _ _ _ _ d); [right; now left|exact Pd].
+  - destruct (children pre dst); inv_out H; [|exact Fpre].
+    eapply frame_trans; [exact Fpre|]. apply (frame_trans _ (remove_sub pre dst)).
+    + apply (frame_remove_sub _ _ _ d); [right; now left|exact Pd].
+    + apply (frame_rename _ _ _ _ (n :: s) d); [now left|apply is_prefix_refl|right; now left|exact Pd].
+  - inv_out H. eapply frame_trans; [exact Fpre|].
+    apply (frame_rename _ _ _ _ (n :: s) d); [now left|apply is_prefix_refl|right; now left|exact Pd].
+  - inv_out H. eapply frame_trans; [exact Fpre|].
+    apply (frame_rename _ _ _ _ (n :: s) d); [now left|apply is_prefix_refl|right; now left|exact Pd].
+Qed.
+
+Lemma only_touches_destination_l t c r t' : exec t c = Out r t' -> frame t t' (roots c).
+Proof.
+  destruct (is_query c) eqn:Q; [intros H; apply frame_weaken_nil; eapply queries_pure_l; eassumption|].
+  destruct c; try discriminate Q; clear Q; simpl.
+  - (* mkdir *) destruct p as [|p tr]; simpl; intros H; [inv_out H; apply frame_refl|].
+    destruct (through_file t p || is_file t p); inv_out H.
+    apply (frame_mkdirp _ _ _ p); [now left|left; apply is_prefix_refl].
+  - (* touch *) destruct p as [|p tr]; simpl; intros H; [inv_out H; apply frame_refl|].
+    destruct (arg_conflict t p tr); [discriminate|]. destruct (exists_ t p); [inv_out H; apply frame_refl|].
+    destruct tr; [inv_out H; apply (frame_mkdirp _ _ _ p); [now left|left; apply is_prefix_refl]|].
+    destruct (is_dir t (parent p)); inv_out H; [|apply frame_refl].
+    apply (frame_set_file _ _ _ _ p); [now left|apply is_prefix_refl].
+  - (* write *) destruct p as [|p tr]; simpl; intros H; [inv_out H; apply frame_refl|].
+    destruct (through_file t p || tr || is_dir t p); [discriminate|].
+    destruct (is_dir t (parent p)); inv_out H; [|apply frame_refl].
+    apply (frame_set_file _ _ _ _ p); [now left|apply is_prefix_refl].
+  - (* rm *) destruct p as [|p tr]; simpl; intros H; [inv_out H; apply frame_refl|].
+    destruct p as [|a p]; [discriminate|]. destruct (arg_conflict t (a :: p) tr); inv_out H.
+    apply (frame_remove_sub _ _ _ (a :: p)); [now left|apply is_prefix_refl].
+  - (* clean *) destruct p as [|p tr]; simpl; intros H; [inv_out H; apply frame_refl|].
+    destruct (dir_arg_conflict t p); inv_out H.
+    apply (frame_remove_below _ _ _ p); [now left|apply is_prefix_refl].
+  - (* copy *) destruct q as [|d dtr]; simpl.
+    + unfold r_copy. destruct (parg_eqb p PEmpty); [|destruct p]; intros H; inv_out H; apply frame_refl.
+    + apply frame_copy.
+  - (* copytofile *) unfold r_copytofile. destruct p as [|s str]; [intros H; inv_out H; apply frame_refl|].
+    destruct (arg_conflict t s str || is_dir t s); [discriminate|].
+    destruct (negb (is_file t s)); [intros H; inv_out H; apply frame_refl|].
+    destruct q as [|d dtr]; [intros H; inv_out H; apply frame_refl|].
+    destruct (arg_conflict t d dtr || is_dir t d); [discriminate|].
+    destruct (negb (exists_ t d) && dtr); [intros H; inv_out H; apply frame_refl|]. simpl. apply frame_copy.
+  - (* copytodir *) unfold r_copytodir. destruct q as [|d dtr]; [intros H; inv_out H; apply frame_refl|].
+    destruct (through_file t d || is_file t d); [discriminate|]. simpl.
+    assert (Fm : frame t (mkdirp t d) [d]) by (apply (frame_mkdirp _ _ _ d); [now left|left; apply is_prefix_refl]).
+    destruct p as [|s str].
+    + intros H. eapply frame_trans; [exact Fm|]. eapply frame_copy; eauto.
+    + destruct (arg_conflict t s str); [discriminate|]. intros H. eapply frame_trans; [exact Fm|]. eapply frame_copy; eauto.
+  - (* move *) destruct p as [|s str]; destruct q as [|d dtr]; simpl.
+    + unfold r_move. simpl. intros H; inv_out H; apply frame_refl.
+    + unfold r_move. simpl. intros H; inv_out H; apply frame_refl.
+    + unfold r_move. simpl. destruct s; intros H; inv_out H; apply frame_refl.
+    + apply frame_move.
+Qed.
+
+(* ---------- a copy never changes its source ---------- *)
+
+Lemma through_file_below t s d : is_file t s = true -> is_prefix s d = true -> path_eqb s d = false -> s <> [] -> through_file t d = true.
+Proof.
+  intros Hf Hp Hne Hs. apply is_prefix_spec in Hp as [r ->]. destruct r as [|x r].
+  - rewrite app_nil_r, path_eqb_refl in Hne. discriminate.
+  - unfold through_file. apply existsb_exists. exists s. split; auto. now apply proper_prefixes_in.
+Qed.
+
+Lemma is_file_nonroot t s : is_file t s = true -> s <> [].
+Proof. intros H ->. discriminate. Qed.
+
+Lemma prefix_of_app_singleton s d b : is_prefix s (d ++ [b]) = true -> is_prefix s d = true \/ s = d ++ [b].
+Proof.
+  revert d; induction s as [|a s IH]; intros d H; [now left|].
+  destruct d as [|x d]; simpl in *.
+  - apply andb_true_iff in H as [H1 H2]. apply Z.eqb_eq in H1. subst. destruct s; [now right|discriminate].
+  - apply andb_true_iff in H as [H1 H2]. apply Z.eqb_eq in H1. subst. rewrite Z.eqb_refl. simpl.
+    destruct (IH _ H2) as [E|E]; [now left|right; now rewrite E].
+Qed.
+
+Lemma copy_leaves_source_l t s str b r t' :
+  exec t (Copy (P s str) b) = Out r t' -> forall q, is_prefix s q = true -> lookup t' q = lookup t q.
+Proof.
+  simpl. unfold r_copy. destruct (parg_eqb (P s str) b); [intros H; inv_out H; auto|].
+  destruct b as [|d dtr]; [intros H; inv_out H; auto|].
+  unfold arg_conflict at 2. destruct (arg_conflict t s str); [discriminate|]. simpl orb.
+  destruct (through_file t d) eqn:Tf; [discriminate|]. simpl orb.
+  destruct (dtr && is_file t d) eqn:Tr; [discriminate|].
+  destruct (lookup t s) as [[c|]|] eqn:L; [| |intros H; inv_out H; auto].
+  - (* file: its path is neither the destination nor on the way to it *)
+    assert (Hf : is_file t s = true) by (unfold is_file; now rewrite L).
+    pose proof (is_file_nonroot _ _ Hf) as Hs.
+    assert (Nd : is_prefix s d = true -> path_eqb s d = true).
+    { intros Hp. destruct (path_eqb s d) eqn:E; auto. rewrite (through_file_below t s d Hf Hp E Hs) in Tf. discriminate. }
+    set (dst := if is_dir t d then d ++ [base s] else if exists_ t d then d else if dtr then d ++ [base s] else d).
+    set (pre := if exists_ t d then t else if dtr then mkdirp t d else mkdirp t (parent d)).
+    assert (Epre : forall q, is_prefix s q = true -> lookup pre q = lookup t q).
+    { intros q Hq. unfold pre. destruct (exists_ t d) eqn:Ex; auto.
+      assert (X : is_prefix s d = false).
+      { destruct (is_prefix s d) eqn:E; auto. specialize (Nd eq_refl). apply path_eqb_eq in Nd. subst d.
+        unfold exists_ in Ex. rewrite L in Ex. discriminate. }
+      destruct dtr; apply lookup_mkdirp_other.
+      - destruct (is_prefix q d) eqn:E; auto. rewrite (is_prefix_trans _ _ _ Hq E) in X. discriminate.
+      - destruct (is_prefix q (parent d)) eqn:E; auto.
+        rewrite (is_prefix_trans _ _ _ Hq (is_prefix_trans _ _ _ E (is_prefix_parent d))) in X. discriminate. }
+    destruct (path_eqb dst s) eqn:Eds; [intros H; inv_out H; exact Epre|].
+    destruct (is_dir pre dst); [discriminate|]. intros H; inv_out H. intros q Hq.
+    assert (X : path_eqb dst q = false).
+    { apply path_eqb_neq. intros <-.
+      assert (Y : is_prefix s d = true \/ s = dst).
+      { unfold dst in Hq |- *. destruct (is_dir t d); [apply prefix_of_app_singleton in Hq; tauto|].
+        destruct (exists_ t d); [now left|]. destruct dtr; [apply prefix_of_app_singleton in Hq; tauto|now left]. }
+      destruct Y as [Y|Y].
+      - apply Nd in Y. apply path_eqb_eq in Y. subst d.
+        unfold dst in Eds. unfold is_dir, exists_ in Eds. rewrite L in Eds. rewrite path_eqb_refl in Eds. discriminate.
+      - rewrite <- Y, path_eqb_refl in Eds. discriminate. }
+    destruct q as [|a q]; [reflexivity|].
+    rewrite <- (Epre (a :: q) Hq). simpl. now rewrite find_set_file, X.
+  - (* directory: the destination is neither inside the source nor one of its parents *)
+    destruct (is_file t d); [discriminate|]. destruct s as [|n s]; [intros H; inv_out H; auto|].
+    set (dst := if is_dir t d then d ++ [base (n :: s)] else d).
+    destruct (is_prefix (n :: s) dst) eqn:P1; [intros H; inv_out H; auto|].
+    destruct (is_prefix dst (n :: s)) eqn:P2; [intros H; inv_out H; auto|]. simpl orb.
+    destruct (through_file t dst || graft_conflict t (n :: s) dst); [discriminate|]. intros H; inv_out H.
+    intros q Hq. destruct q as [|a q]; [reflexivity|]. simpl.
+    unfold graft. rewrite find_graft_other.
+    + apply find_mkdirp_other. destruct (is_prefix (a :: q) dst) eqn:E; auto.
+      rewrite (is_prefix_trans _ _ _ Hq E) in P1. discriminate.
+    + destruct (is_prefix dst (a :: q)) eqn:E; auto.
+      destruct (prefix_comparable _ _ _ Hq E); congruence.
+Qed.
+
+(* ---------- programs ---------- *)
+
+Lemma program_frame_l cs : forall t t' q,
+  run t cs = Some t' ->
+  (forall c, In c cs -> outside (roots c) q = true /\ towards (roots c) q = false) ->
+  lookup t' q = lookup t q.
+Proof.
+  induction cs as [|c cs IH]; intros t t' q Hr Hq; simpl in Hr.
+  - now inversion Hr.
+  - destruct (exec t c) as [|r t1] eqn:E; [discriminate|].
+    rewrite (IH t1 t' q Hr) by (intros c' Hc'; apply Hq; now right).
+    destruct (Hq c (or_introl eq_refl)) as [O T].
+    destruct (only_touches_destination_l _ _ _ _ E q O) as [_ B]. now apply B.
+Qed.
+
+Lemma program_preserves_l cs : forall t t' q e,
+  run t cs = Some t' ->
+  (forall c, In c cs -> outside (roots c) q = true) ->
+  lookup t q = Some e -> lookup t' q = Some e.
+Proof.
+  induction cs as [|c cs IH]; intros t t' q e Hr Hq He; simpl in Hr.
+  - now inversion Hr; subst.
+  - destruct (exec t c) as [|r t1] eqn:E; [discriminate|].
+    apply (IH t1 t' q e Hr); [intros c' Hc'; apply Hq; now right|].
+    destruct (only_touches_destination_l _ _ _ _ E q (Hq c (or_introl eq_refl))) as [A _]. now apply A.
 Qed.
